@@ -101,6 +101,44 @@ def run(prog, job: dict) -> dict:
     return {"job": job, "paths": paths, "funcs": sorted(funcs)}
 
 
+SINKS = [("in-memory buffer (BytesIO)", "BytesIO"), ("raw unbuffered file/socket (FileIO)", "FileIO"), ("buffered file (open(..., 'wb'))", "BufferedWriter"), ("duck-typed object with write()", None)]
+
+
+def run_file(prog, job: dict) -> dict:
+    """flat_stream_to_file: what has reached the caller's sink whenever the input is asked for the next statement."""
+    integ, physical, fs = job["integ"], job["physical"], job["frame_size"]
+
+    def scenario(it: Interp) -> dict:
+        k = K.Kit(it)
+        arity = 3 if physical == 1 else 4
+        n = 7
+        stmts = [tuple(C.base(f"s{i}", arity)) for i in range(n)]
+        opts = P.make_options(k, logical=None, frame_size=fs, generalized=False, rdf_star=False)
+        sink = K.models.make_output(job["pyclass"])
+        at_pull: list = []
+
+        def n_stmt_rows(rows: list) -> int:
+            return sum(1 for r in rows if isinstance(r, Msg) and ("triple" in r.present or "quad" in r.present))
+
+        def on_pull(i: int, got: bool) -> None:
+            in_sink = sum(n_stmt_rows(K.Kit.rows_of(w[1])) for w in sink.attrs["writes"] if w[0] == "delimited")
+            streams = [e["obj"] for e in it.events if e["kind"] == "setattr" and e["attr"] == "flow" and isinstance(e.get("obj"), Obj) and isinstance(e.get("value"), Obj)]
+            pending = n_stmt_rows(streams[-1].attrs["flow"].attrs["data"].items) if streams and "flow" in streams[-1].attrs else 0
+            at_pull.append((i, in_sink, pending))
+
+        objs = [(P.generic_statement if integ == "generic" else P.rdflib_statement)(k, st) for st in stmts]
+        gen_in = k.generator(objs, on_pull=on_pull)
+        k.call(k.get(K.GS if integ == "generic" else K.RS, "flat_stream_to_file"), gen_in, sink, opts)
+        raw = [w for w in sink.attrs["writes"] if w[0] != "delimited"]
+        total = sum(n_stmt_rows(K.Kit.rows_of(w[1])) for w in sink.attrs["writes"] if w[0] == "delimited")
+        return {"at_pull": at_pull, "raw_writes": len(raw), "total": total, "n": n, "closed": bool(sink.attrs.get("closed_by_wrapper"))}
+
+    paths = []
+    for it, outcome in explore(prog, scenario, max_paths=8, generic_strings=True):
+        paths.append(outcome[1] if outcome[0] == "ok" else {"raise": it.exc_class_name(outcome[1].exc), "site": str(outcome[1].site)})
+    return {"job": job, "paths": paths}
+
+
 def check(chk: Check) -> None:
     ra, rb, rc, rd = "C11.PATH.bounded-pending", "C11.PATH.immediate-handover", "C11.TABLE.frame-size", "C11.PATH.parser-liveness"
     chk.rule(ra, "flat delimited serialisation: from the second statement on, fewer than frame_size rows are pending whenever the input is asked for the next statement", floor=30)
@@ -150,6 +188,29 @@ def check(chk: Check) -> None:
                 chk.fail(rb, inst, f"pyjelly.integrations.{jb['integ']}.serialize:{jb['kind']}:handover", "no frame is ever handed to the caller")
             else:
                 chk.ok(rb, inst, {"handover(pulls, statements, rows)": p["handover"][:4]})
+    # file entry points: the caller's sink is where frames are handed over
+    re_ = "C11.PATH.sink-handover"
+    chk.rule(re_, "flat_stream_to_file: whenever the input is asked for the next statement, every statement consumed so far is either pending in the flow or already written to the caller's sink (nothing is parked in a private buffer)", floor=30)
+    fjobs = [dict(integ=integ, physical=physical, frame_size=fs, pyclass=pyc, sink=sname) for integ in ("generic", "rdflib") for physical in (1, 2) for fs in (1, 3) for sname, pyc in SINKS]
+    for res in pmap(run_file, fjobs):
+        if res is None:
+            continue
+        jb = res["job"]
+        inst = f"{jb['integ']}.flat_stream_to_file physical={jb['physical']} frame_size={jb['frame_size']} sink={jb['sink']}"
+        construct = f"pyjelly.integrations.{jb['integ']}.serialize.flat_stream_to_file"
+        for p in res["paths"]:
+            chk.paths += 1
+            if "raise" in p:
+                chk.fail(re_, inst, construct, f"raises {p['raise']} at {p['site']}")
+                continue
+            held = [(i, in_sink, pending) for i, in_sink, pending in p["at_pull"] if in_sink + pending != i]
+            if held:
+                i, in_sink, pending = held[0]
+                chk.fail(re_, inst, construct + ":held-back", f"when statement #{i + 1} is requested, {i} statements were consumed, {pending} are pending in the flow but only {in_sink} have reached the caller's {jb['sink']}: complete frames are parked in a private buffer")
+            elif p["total"] != p["n"]:
+                chk.fail(re_, inst, construct + ":lost", f"{p['total']} of {p['n']} statements reached the sink by the time the call returned")
+            else:
+                chk.ok(re_, inst, {"at_pull(consumed, in sink, pending)": p["at_pull"][:4]})
     # parser liveness (shares the lazy-prefix scenario of C10 with a stalling source)
     ljobs = []
     for physical in (1, 2, 3):
